@@ -46,17 +46,26 @@ long long c_coord2cell(long long nrows, long long ncols,
     long long nval, double * xycoords, long long * idxcell)
 {
     long long ierr, i, nx, ny;
+    double fx, fy;
     ierr = 0;
 
     for(i=0; i<nval; i++)
     {
-        nx = (long long)((xycoords[2*i]-xll)/csz);
-        ny = nrows-1-(long long)((xycoords[2*i+1]-yll)/csz);
+        /* Column and row (from the bottom) as truncated doubles:
+         * converted to integer only when they are in the grid */
+        fx = trunc((xycoords[2*i]-xll)/csz);
+        fy = trunc((xycoords[2*i+1]-yll)/csz);
 
-        if(nx<0 || nx>=ncols || ny<0 || ny>=nrows)
+        if(isnan(fx) || isnan(fy) || fx<0 || fx>=(double)ncols
+                || fy<0 || fy>=(double)nrows)
+        {
             idxcell[i] = -1;
-        else
-            idxcell[i] = ny*ncols+nx;
+            continue;
+        }
+
+        nx = (long long)fx;
+        ny = nrows-1-(long long)fy;
+        idxcell[i] = ny*ncols+nx;
     }
 
     return ierr;
